@@ -96,6 +96,10 @@ func RunCase(c *world.Case, o RunOpts) *world.Outcome {
 	if c.Config.SortCanary > 0 {
 		env = append(env, fmt.Sprintf("VERIF_SORT_CANARY=%d", c.Config.SortCanary))
 	}
+	if c.Seed%2 == 1 {
+		// Half of the worlds register the in-place gob variant of the custom column codec.
+		env = append(env, "VERIF_CUSTOM_CODEC=gob")
+	}
 	if v := os.Getenv("VERIF_LOGTAIL"); v != "" {
 		env = append(env, "VERIF_LOGTAIL="+v)
 	}
